@@ -278,5 +278,62 @@ pub fn gen_c11(sh: &mut Shards, o: &Opts) -> serde_json::Value {
             pixels += (w * h) as u64;
         }
     }
+    // large frames: the whole-image result at probed positions against the 1x1 conversions of those pixels, and a repeat
+    for (k, call) in ["YuvToRgb", "YuvToXyb", "RgbToLin", "LinToRgb", "LinToXyb", "XybToLin", "LinToHsl"].iter().enumerate() {
+        let (w, h) = (702usize, 524usize);
+        let c = Cfg { mc: MC_STD[k % 7], tc: TC_SUP[(k * 5 + 3) % 14], cp: CP_SUP[(k * 3 + 1) % 11], full: k % 2 == 0, n: 10, ssx: 1, ssy: 1 };
+        let idx = crate::util::probe_indices(w * h, w, &mut rng);
+        let mut s = String::new();
+        if call.starts_with("Yuv") {
+            let (cw, ch) = (w >> 1, h >> 1);
+            let planes: [Vec<u16>; 3] = [(0..w * h).map(|_| rng.below(1024) as u16).collect(), (0..cw * ch).map(|_| rng.below(1024) as u16).collect(), (0..cw * ch).map(|_| rng.below(1024) as u16).collect()];
+            let ya = build_yuv::<u16>(&planes, w, h, &c, [(0, 0), (5, 1), (0, 0)], None);
+            let _ = write!(s, "\"ev\":\"pw\",\"probe\":1,\"src\":\"yuvbig\",\"call\":\"{call}\",\"cfg\":{},\"st\":16,\"w\":{w},\"h\":{h}", c.json());
+            match (from_yuv(call, &ya), from_yuv(call, &ya)) {
+                (Ok((out, wo, ho)), Ok((again, _, _))) if out.len() == w * h => {
+                    let _ = write!(s, ",\"res\":\"ok\",\"wo\":{wo},\"ho\":{ho}");
+                    let sel = |v: &Px| -> Px { idx.iter().map(|&i| v[i]).collect() };
+                    bits(&mut s, "out", &sel(&out));
+                    bits(&mut s, "again", &sel(&again));
+                    let c1 = Cfg { ssx: 0, ssy: 0, ..c };
+                    let one: Px = idx
+                        .iter()
+                        .map(|&i| {
+                            let (x, y) = (i % w, i / w);
+                            let ci = (y >> 1) * cw + (x >> 1);
+                            let p1 = [vec![planes[0][i]], vec![planes[1][ci]], vec![planes[2][ci]]];
+                            from_yuv(call, &build_yuv::<u16>(&p1, 1, 1, &c1, [(0, 0); 3], None)).map(|r| r.0[0]).unwrap_or([f32::NAN; 3])
+                        })
+                        .collect();
+                    bits(&mut s, "one", &one);
+                }
+                (Err(e), _) | (_, Err(e)) => {
+                    let _ = write!(s, ",\"res\":\"{e}\"");
+                }
+                _ => s.push_str(",\"res\":\"shape\""),
+            }
+        } else {
+            let base: Px = (0..w * h).map(|_| [rng.unit() as f32, rng.unit() as f32, rng.unit() as f32]).collect();
+            let src: Px = if call.starts_with("Xyb") { Xyb::from(LinearRgb::new(base, w, h).unwrap()).data().to_vec() } else { base };
+            let _ = write!(s, "\"ev\":\"pw\",\"probe\":1,\"src\":\"float\",\"dst\":\"float\",\"call\":\"{call}\",\"cfg\":{},\"w\":{w},\"h\":{h}", c.json());
+            match (float_conv(call, &c, &src, w, h), float_conv(call, &c, &src, w, h)) {
+                (Ok((out, wo, ho)), Ok((again, _, _))) if out.len() == w * h => {
+                    let _ = write!(s, ",\"res\":\"ok\",\"wo\":{wo},\"ho\":{ho}");
+                    let sel = |v: &Px| -> Px { idx.iter().map(|&i| v[i]).collect() };
+                    bits(&mut s, "out", &sel(&out));
+                    bits(&mut s, "again", &sel(&again));
+                    let one: Px = idx.iter().map(|&i| float_conv(call, &c, &[src[i]], 1, 1).map(|r| r.0[0]).unwrap_or([f32::NAN; 3])).collect();
+                    bits(&mut s, "one", &one);
+                }
+                (Err(e), _) | (_, Err(e)) => {
+                    let _ = write!(s, ",\"res\":\"{e}\"");
+                }
+                _ => s.push_str(",\"res\":\"shape\""),
+            }
+        }
+        sh.emit(&s);
+        n += 1;
+        pixels += (w * h) as u64;
+    }
     serde_json::json!({"calls": n, "pixels": pixels, "distinct": n})
 }
